@@ -416,6 +416,55 @@ def path_base_is(e, v):
     names = {x.id for x in ast.walk(e) if isinstance(x, ast.Name)}
     return names == {v}
 
+def rule_o9(repo):
+    """Two bounds contradict each other only when they *cross*: an upper bound strictly below a lower bound, the sum of two
+    opposite constants strictly negative.  Where they meet the system has a solution (an implied equality): x + y >= 2 with
+    x <= 0 and y <= 2 is satisfied by (0, 2).  Every comparison of two bounds / constants that a direct contradiction
+    (`Contr(DirectContr(..))`) depends on - directly, or through the test under which the partner of the contradiction was
+    picked - is therefore a strict one.  Sign tests against a literal are not comparisons of two bounds."""
+    from ..astutil import comparison_holding
+    res = RuleResult('C16.O9', 'a direct contradiction between two bounds is concluded from a strict comparison only', floor=2)
+    ORDER = (ast.Lt, ast.LtE, ast.Gt, ast.GtE)
+    m = repo.module('prover/omega.py')
+    for f in m.all_funcs:
+        rets = [r for r in ast.walk(f.node) if isinstance(r, ast.Return) and isinstance(r.value, ast.Call) and call_name(r.value) == 'Contr' and r.value.args and
+                isinstance(r.value.args[0], ast.Call) and call_name(r.value.args[0]) == 'DirectContr']
+        own = {id(x) for g in f.nested.values() for x in ast.walk(g.node)} if getattr(f, 'nested', None) else set()
+        rets = [r for r in rets if id(r) not in own]
+        if not rets:
+            continue
+        cfg = cfg_of(f.node)
+        for r in rets:
+            targets = [cfg.node_for(r)]
+            # the partners of the contradiction that are picked earlier under a test (found_contra = v.deriv)
+            picked = {x.id for a in r.value.args[0].args for x in ast.walk(a) if isinstance(x, ast.Name)}
+            for n in cfg.stmt_nodes(ast.Assign):
+                if any(isinstance(t, ast.Name) and t.id in picked for t in n.ast.targets) and not (isinstance(n.ast.value, ast.Constant) and n.ast.value.value is None):
+                    targets.append(n)
+            seen = set()
+            for tgt in targets:
+                if tgt is None:
+                    continue
+                for t in cfg.test_nodes():
+                    cp = compare_parts(t.ast)
+                    if not cp or cp[0] not in ORDER or isinstance(cp[1], ast.Constant) or isinstance(cp[2], ast.Constant) or id(t) in seen:
+                        continue
+                    if any(isinstance(x, ast.UnaryOp) and isinstance(x.operand, ast.Constant) for x in (cp[1], cp[2])):
+                        continue
+                    need_true = cfg.path_avoiding(tgt, skip_edges={(t.id, 'true')}) is None
+                    need_false = cfg.path_avoiding(tgt, skip_edges={(t.id, 'false')}) is None
+                    if need_true == need_false:
+                        continue            # the comparison does not decide whether this point is reached
+                    seen.add(id(t))
+                    holds = comparison_holding(t.ast, need_true)
+                    strict = bool(holds) and holds[0][0] in (ast.Lt, ast.Gt)
+                    res.add('%s :: %s :: contradiction-by(%s)' % (m.rel, f.qualname, src(t.ast, 50)), strict,
+                            'strict comparison' if strict else
+                            'line %d: the contradiction reported at line %d rests on `%s` being %s, which also holds when the two bounds meet: '
+                            'x + y >= 2, x <= 0, y <= 2 is then answered UNSAT although (0, 2) satisfies it' % (
+                                t.lineno, r.lineno, src(t.ast, 60), 'true' if need_true else 'false'), '%s:%d' % (m.rel, t.lineno))
+    return res
+
 
 def rules(repo):
-    return [rule_o1(repo), rule_o2(repo), rule_o3(repo), rule_o4(repo), rule_o5(repo), rule_o6(repo), rule_o7(repo), rule_o8(repo)]
+    return [rule_o1(repo), rule_o2(repo), rule_o3(repo), rule_o4(repo), rule_o5(repo), rule_o6(repo), rule_o7(repo), rule_o8(repo), rule_o9(repo)]
